@@ -51,7 +51,7 @@ Proof. exact restrict_unique. Qed.
 (* the qubits of a label are exactly its qubits, ascending *)
 Theorem c10_members : forall ls l n j,
   (In j (omembers ls l n) <-> j < n /\ nth j ls None = Some l) /\ StronglySorted lt (omembers ls l n).
-Proof. intros; split; [apply omembers_in|apply omembers_sorted]. Qed.
+Proof. exact omembers_spec. Qed.
 
 (* ------------------------------------------------------------------------------------------------ *)
 (* generic: two tagged circuits with the same per-wire and per-clbit projections have the same Herbrand
@@ -88,7 +88,7 @@ Proof. exact separate_recompose. Qed.
 Theorem c10_union_find : forall n es,
   (forall e, In e es -> fst e < n /\ snd e < n) ->
   forall a b, find (uptree n es) a = find (uptree n es) b <-> conn es a b.
-Proof. intros n es H. exact (find_conn n es _ (uptree_spec n es H)). Qed.
+Proof. exact union_find_spec. Qed.
 
 Theorem c10_auto_idle : forall n ignore c,
   in_range n c ->
@@ -101,14 +101,10 @@ Theorem c10_auto_idle : forall n ignore c,
   (forall q1 q2 k1 k2, q1 < n -> q2 < n -> nth q1 L None = Some k1 -> nth q2 L None = Some k2 -> k1 < k2 ->
      exists r1, r1 < n /\ nth r1 L None = Some k1 /\ r1 <= q1 /\
                 forall x, x < n -> nth x L None = Some k2 -> r1 < x).
-Proof.
-  intros n ignore c R. cbv zeta. split; [apply auto_labels_length|]. split; [exact (auto_idle n ignore c R)|].
-  split; [exact (auto_conn n ignore c R false)|]. split; [exact (auto_consecutive n ignore c false)|].
-  exact (auto_order n ignore c R false).
-Qed.
+Proof. exact auto_labels_spec. Qed.
 
 Theorem c10_keep_idle_wires : forall n ignore c q, in_range n c -> q < n -> nth q (auto_labels n ignore true c) None <> None.
-Proof. intros n ignore c q R. exact (auto_keep_idle n ignore c R q). Qed.
+Proof. exact keep_idle_spec. Qed.
 
 Theorem c10_separate_drops_idle : forall n cregs c subs qm,
   no_uuid c -> in_range n c ->
@@ -185,11 +181,7 @@ Theorem c10_subobs_tensor : forall ls ps so,
     recombine1 (length ls)
       (map (fun e : nat * list pauli => (omembers ls (fst e) (length ls), nth j (snd e) pI)) so)
     = plets (nth j ps pI).
-Proof.
-  intros ls ps so H. split; [exact (subobs_keys ls ps so H)|]. split.
-  - intros l subs_l. exact (subobs_entries ls ps so l subs_l H).
-  - intros j. exact (subobs_tensor ls ps so j H).
-Qed.
+Proof. exact subobs_spec. Qed.
 
 (* ------------------------------------------------------------------------------------------------ *)
 (* c10_refusals *)
@@ -210,11 +202,7 @@ Theorem c10_problem_refuses : forall basis_of relabel dx n ncl ncr c,
   (forall labels obs i, labels_ok n labels -> obs_sizes_ok n obs -> obs_phases_ok obs ->
      In i c -> uncuttable basis_of (labels_used n c labels) i ->
      partition_problem basis_of relabel dx n 0 0 c labels obs = Refused).
-Proof.
-  intros. split; [intros; now apply refuses_label_count|]. split; [intros; eapply refuses_obs_size; eauto|].
-  split; [intros; eapply refuses_phase; eauto|]. split; [intros; now apply refuses_clbits|].
-  intros; eapply refuses_uncuttable; eauto.
-Qed.
+Proof. exact problem_refuses_spec. Qed.
 
 (* repaired behaviour F4: an observable acting on a None-labelled (idle, dropped) qubit is refused, never answered *)
 Theorem c10_idle_observable : forall ls ps,
@@ -222,7 +210,7 @@ Theorem c10_idle_observable : forall ls ps,
      sub_observables ls ps = Refused) /\
   ((forall p q, In p ps -> q < length ls -> nth q ls None = None -> nth q (plets p) 0 = 0) ->
    (forall p, In p ps -> length (plets p) = length ls) -> exists so, sub_observables ls ps = Ok so).
-Proof. intros ls ps. split; [intros p q; apply subobs_refused|apply subobs_ok]. Qed.
+Proof. exact idle_observable_spec. Qed.
 
 Theorem c10_idle_observable_problem : forall basis_of relabel dx n ncl ncr c labels ps p q r,
   In p ps -> q < n -> nth q (labels_used n c labels) None = None -> nth q (plets p) 0 <> 0 ->
